@@ -50,3 +50,5 @@ func Ite(c bool, a, b int) int       { return a }
 func HasPrefixC(s, prefix string) bool { return false }
 
 func ParseLnCol(s string) (line, col int, ok bool) { return 0, 0, false }
+
+func DiagText(s string) string { return "" }
